@@ -550,8 +550,15 @@ def run_hdc(case):
                     warned = [str(w.message) for w in wlist if issubclass(w.category, RuntimeWarning)
                               and "could not be reached" in str(w.message)]
                     fallback = cls["Rec"].rec
-    except IndexError:
-        return {"err": "emptySelection"}
+    except IndexError as e:
+        # C02's known finding: the densest cell alone exceeds 1 - alpha, nothing is selected and
+        # cumsum_biggest_until indexes an empty array. An IndexError from anywhere else is a failure of its own.
+        import traceback
+
+        frames = [f.name for f in traceback.extract_tb(e.__traceback__)]
+        if "cumsum_biggest_until" in frames:
+            return {"err": "emptySelection"}
+        return {"err": "IndexError", "msg": f"IndexError in {frames[-1]}: {e}"}
     except ValueError as e:
         return {"err": "ValueError", "msg": str(e), "rec": dict(proxy.rec)}
     rec = dict(proxy.rec)
@@ -855,6 +862,12 @@ def hdc_phase1(ck, case):
             return
         if impl["err"] == "emptySelection":
             return  # C02's known finding (densest cell > 1-alpha), not about coordinates
+        if case.get("limits_form") == "reversed":
+            # (max, min) entries are outside the documented form: that the code orders them is part of the grid
+            # correspondence, not a clause of the property
+            ck.diverge("hdc-grid-from-arguments", case, f"limits given as (max, min): {impl.get('msg', impl['err'])}; "
+                                                        f"the code as modelled takes min()/max() of each entry")
+            return
         ck.fail({"entry": ENTRY_HDC, "predicate": "coordinates_returned"}, case, impl.get("msg", impl["err"]))
         return
     region, axes, rec = impl["region"], impl["axes"], impl["rec"]
